@@ -780,6 +780,7 @@ func Parts() []mc.Part {
 		ps = append(ps, mc.ExplorePartC(v.Name, mc.WithRestart(New(v), "nft"), depthQuick, depthThorough, false, rule,
 			&mc.ConfOpts{Stores: []string{"nft"}, SkipDenoms: map[string]bool{"stake": true}, MaxPaths: 100}))
 	}
+	ps = append(ps, BulkPart())
 	return ps
 }
 
